@@ -70,6 +70,10 @@ func DecryptData(key, data []byte, e etype.EType) ([]byte, error) {
 // DecryptMessage decrypts the message provided using the methods specific to the etype provided as defined in RFC 3962.
 // The integrity of the message is also verified.
 func DecryptMessage(key, ciphertext []byte, usage uint32, e etype.EType) ([]byte, error) {
+	// The ciphertext must hold at least the confounder and the checksum
+	if len(ciphertext) < e.GetConfounderByteSize()+e.GetHMACBitLength()/8 {
+		return nil, errors.New("ciphertext too short")
+	}
 	//Derive the key
 	k, err := e.DeriveKey(key, common.GetUsageKe(usage))
 	if err != nil {
